@@ -51,11 +51,12 @@ Ops == << Op(M_get,    T_u,   <<T_users>>,          T_listUsers,  "absent", FALS
           Op(M_get,    T_s1,  << >>,                << >>,        "absent", TRUE),
           Op(M_get,    T_s2,  << >>,                << >>,        "absent", TRUE) >>
 NOps == Len(Ops)
-(* links: source operation, target operation, how the target is referenced *)
-Links == << [src |-> 1, tgt |-> 3, by |-> "operationId"],
-            [src |-> 2, tgt |-> 3, by |-> "operationId"],
-            [src |-> 2, tgt |-> 4, by |-> "operationRef"],
-            [src |-> 5, tgt |-> 3, by |-> "operationRef"] >>
+(* links: source operation, target operation, how the target is referenced, and where the link is written: inline in the *)
+(* response, as a $ref to a reusable link object, or inside a response that is itself a $ref to a reusable response        *)
+Links == << [src |-> 1, tgt |-> 3, by |-> "operationId", via |-> "ref-link"],
+            [src |-> 2, tgt |-> 3, by |-> "operationId", via |-> "inline"],
+            [src |-> 2, tgt |-> 4, by |-> "operationRef", via |-> "inline"],
+            [src |-> 5, tgt |-> 3, by |-> "operationRef", via |-> "ref-response"] >>
 NLinks == Len(Links)
 
 ---------------------------------------------------------------------------
@@ -90,7 +91,8 @@ FilterDef ==
      {E("ne_true", P_depr, << >>)},                                             \* 20  /deprecated != true  (U when absent)
      {[by |-> "deprecated", how |-> "is", v |-> << >>, vs |-> << >>]},          \* 21  deprecated
      {V("method", <<"G","E","T">>), V("path", T_uid)},                          \* 22  conjunction of values
-     {V("tag", T_users), R("method", "exact", <<"P","O","S","T">>)} >>          \* 23  conjunction value + regex
+     {V("tag", T_users), R("method", "exact", <<"P","O","S","T">>)},            \* 23  conjunction value + regex
+     {E("eq_raw", P_opid, T_createUser)} >>                                     \* 24  /operationId == createUser  (value without quotes)
 NF == Len(FilterDef)
 FilterIds == 1..NF
 (* MatchTable[f][o]: verdict of catalogue filter f on operation o (constant, evaluated once) *)
@@ -123,6 +125,15 @@ ExpectStat(door, b, I, X) ==
       total |-> NOps,
       lsel |-> IF linkUndecided THEN -1 ELSE Count({l \in 1..NLinks : e[Links[l].src] = 1 /\ e[Links[l].tgt] = 1}),
       ltotal |-> NLinks]
+
+(* The same abstract universe is written down in every supported dialect (OpenAPI 3.0, 3.1, Swagger 2.0 with x-links), and   *)
+(* regular expressions are given as text or as compiled patterns; selection must not depend on either.  Both are assigned to *)
+(* the elements by the spec so that every filter meets every dialect / form across the family.                               *)
+RECURSIVE SumSet(_)
+SumSet(S) == IF S = {} THEN 0 ELSE LET x == CHOOSE y \in S : TRUE IN x + SumSet(S \ {x})
+Dialects == <<"oas30", "oas31", "swagger20">>
+DialectOf(I, X) == Dialects[((SumSet(I) + 2 * SumSet(X) + Cardinality(X)) % 3) + 1]
+RxFormOf(d, I, X) == IF d # "cli" /\ (SumSet(I \cup X) + Cardinality(I)) % 2 = 0 THEN "compiled" ELSE "text"
 
 (* what the command line can say: value terms one flag each, one include filter made of the *-regex flags, one exclude     *)
 (* filter per *-regex flag, one expression per side, --exclude-deprecated                                                   *)
@@ -189,5 +200,6 @@ Export ==
                                          bases |-> [b \in 1..NBase |-> [incl |-> SetToSeq(BaseDef[b][1]), excl |-> SetToSeq(BaseDef[b][2])]]])>>)
      ELSE TRUE
   /\ PrintT(<<"CASE", ToJson([door |-> door, base |-> base, incl |-> SetToSeq(incl), excl |-> SetToSeq(excl),
+                               dialect |-> DialectOf(incl, excl), rx |-> RxFormOf(door, incl, excl),
                                expect |-> Expect(door, base, incl, excl), stat |-> ExpectStat(door, base, incl, excl)])>>)
 =============================================================================
